@@ -104,6 +104,15 @@ def run_sequences(job):
     out = []
     for steps in seqs:
         privs = [[Key(rng.randrange(1, ref.N), network=network) for _ in range(SHAPE[shape][0])] for shape, _ in cfg]
+        if isinstance(grind, str) and grind.startswith('pub01'):
+            # public keys whose compressed encoding ends in 01 (key strings are told apart by their first and last bytes)
+            for ks in privs:
+                while ks[0].public_byte[-1] != 1:
+                    ks[0] = Key(rng.randrange(1, ref.N), network=network)
+        keyform = rng.choice(['object', 'hex', 'bytes']) if not isinstance(grind, str) else grind.split('-')[1]
+
+        def kf(k):
+            return k.public() if keyform == 'object' else (k.public_hex if keyform == 'hex' else k.public_byte)
         values = [rng.choice([100000, 2 ** 32 + 77]) for _ in cfg]
         outkey = Key(rng.randrange(1, ref.N), network=network)
 
@@ -113,15 +122,15 @@ def run_sequences(job):
                 n, m = SHAPE[shape]
                 ks = privs[j]
                 if n == 1:
-                    t.add_input(prev_txid=bytes([j + 1]) * 32, output_n=j, keys=ks[0].public(), script_type='sig_pubkey', value=values[j],
+                    t.add_input(prev_txid=bytes([j + 1]) * 32, output_n=j, keys=kf(ks[0]), script_type='sig_pubkey', value=values[j],
                                 witness_type=wt, sequence=0xfffffffd)
                 else:
-                    t.add_input(prev_txid=bytes([j + 1]) * 32, output_n=j, keys=[k.public() for k in ks], script_type='p2sh_multisig',
+                    t.add_input(prev_txid=bytes([j + 1]) * 32, output_n=j, keys=[kf(k) for k in ks], script_type='p2sh_multisig',
                                 sigs_required=m, value=values[j], witness_type=wt, sequence=0xfffffffd)
             t.add_output(50000, outkey.address())
             t.add_output(20000, lock_script=b'\x51')
             return t
-        if grind is not None:
+        if grind is not None and not isinstance(grind, str):
             # a first signer whose signature has an r value starting with the wanted byte (exported forms are told apart
             # by their first byte)
             for _ in range(6000):
@@ -135,6 +144,7 @@ def run_sequences(job):
         rec_steps = []
         err = None
         seen = {}
+        vcache = {}
         for a in steps:
             j = a['j'] - 1
             try:
@@ -252,7 +262,27 @@ def run_sequences(job):
                 lib = bool(t.verify())
             except Exception as e:
                 lib = False
-            rec_steps.append({'a': a, 'lib': lib, 'err': err or ''})
+            # soundness against the keys the caller LISTED: a positive verdict needs, for every input, m distinct listed public
+            # keys with a signature that the reference verifier accepts over the input's digest
+            listed_ok = None
+            if lib:
+                listed_ok = True
+                try:
+                    for jj, inp in enumerate(t.inputs):
+                        z = int.from_bytes(t.signature_hash(jj, 1, witness_type=inp.witness_type), 'big')
+                        signers = set()
+                        for sg in inp.signatures:
+                            for pos, k in enumerate(privs[jj]):
+                                ck_ = (z, sg.r, sg.s, pos, jj)
+                                if ck_ not in vcache:
+                                    vcache[ck_] = ref.ecdsa_verify(ref.parse_point(k.public_byte), z, sg.r, sg.s)
+                                if vcache[ck_]:
+                                    signers.add(pos)
+                        if len(signers) < SHAPE[cfg[jj][0]][1]:
+                            listed_ok = False
+                except Exception:
+                    listed_ok = None
+            rec_steps.append({'a': a, 'lib': lib, 'err': err or '', 'listed_ok': listed_ok})
             if err:
                 break
         out.append({'cfg': [{'n': SHAPE[s][0], 'm': SHAPE[s][1], 'segwit': w != 'legacy'} for s, w in cfg], 'steps': rec_steps,
@@ -290,6 +320,9 @@ def run(replay=None):
             jobs.append((common.seed() + ci * 10 + 9, cfg, systematic_sequences(cfg), nets[ci % 3]))
             # exported signatures whose first byte looks like a DER sequence tag (0x30), an integer tag (0x02), or is zero
             sign_all = [{'op': 'sign', 'j': j + 1, 'keys': list(range(1, SHAPE[cfg[j][0]][1] + 1)), 'f': '', 'pos': 0} for j in range(len(cfg))]
+            for form in ('hex', 'bytes'):
+                jobs.append((common.seed() + ci * 10 + 7, cfg, [sign_all, sign_all + [{'op': 'roundtrip', 'j': 1, 'keys': [], 'f': '', 'pos': 0}]],
+                             nets[ci % 3], 'pub01-' + form))
             if ci % 3 == common.seed() % 3 or thorough:
                 for gb in (0x30, 0x02, 0x00):
                     jobs.append((common.seed() + ci * 10 + 8, cfg, [sign_all + [{'op': 'export', 'j': 1, 'keys': [], 'f': '', 'pos': p}]
@@ -307,6 +340,11 @@ def run(replay=None):
                                                   'verified' if s['lib'] else 'not-verified') for s in r['steps'])
         case = {'seed': job[0], 'kinds': [list(k) for k in r['kinds']], 'steps': [s['a'] for s in r['steps']], 'network': r['network'],
                 'grind': job[4] if len(job) > 4 else None}
+        bad = next((n for n, s in enumerate(r['steps']) if s.get('listed_ok') is False), None)
+        if bad is not None:
+            ck.violation(None, 'clause verified-without-signatures-of-the-listed-keys; inputs %s on %s, step %d of [%s]: verify() is True but '
+                         'the reference verifier finds fewer than m listed public keys with a valid signature over the digest'
+                         % (r['kinds'], r['network'], bad + 1, desc), case)
         if r['error']:
             ck.violation(None, 'clause action-raised; %s on %s: %s [%s]' % (r['kinds'], r['network'], r['error'], desc), case)
             continue
